@@ -345,6 +345,9 @@ func TestC06(t *testing.T) {
 		// all strings, so that ~ and !~ have patterns on their right in every grouping
 		{ast.Id("s1"), ast.Id("s2"), ast.Str("a"), ast.Str("^$")},
 		{ast.Id("b1"), ast.Id("s2"), ast.Id("n3"), ast.Id("s1")},
+		// regex literals as operands: a literal on the right of ~ is an operand like any other,
+		// a tighter operator after it takes it first (x ~ /re/ + s is x ~ (/re/ + s))
+		{ast.Id("s1"), ast.Regex("zzz"), ast.Str("b"), ast.Regex("q")},
 	}
 	for _, n := range []int{2, 3} {
 		var rec2 func(ops []string)
